@@ -77,7 +77,7 @@ func ExpOf(tr *hs.Trace) *Exp {
 
 func (c ProgCase) Request(backends ...string) *sb.Request {
 	return &sb.Request{Op: "run", Modules: c.Modules, Entry: c.Entry, Backends: backends, Limits: c.Limits,
-		Singletons: c.Singletons, AnyVals: c.AnyVals}
+		Singletons: c.Singletons, AnyVals: c.AnyVals, PollCap: 3_000_000}
 }
 
 // OutcomeClass maps a backend outcome onto the model's classes.
